@@ -291,6 +291,7 @@ class Snapshot:
                 memo[id(a)] = fp_bytes(a)
             self.paths[p] = (id(a), memo[id(a)])
         self._keep = list(bufs.values())  # keep ids alive
+        self._by_id = {id(a): a for a in self._keep}
 
     def owners_changed_since(self, before: "Snapshot", pool, inputs):
         """pool objects owning a changed buffer: for each changed array the lowest pool index from which
@@ -309,7 +310,14 @@ class Snapshot:
                     bad_ids.add(id(arr))
                 else:
                     toks.add(f"input:{k}")
-        for bid in bad_ids:
+        def base_id(i):
+            # a view (e.g. `reconstruction[:n]`) belongs to whoever owns the array it is a view of
+            a = self._by_id.get(i)
+            while a is not None and isinstance(getattr(a, "base", None), np.ndarray) and id(a.base) in self._by_id:
+                a = a.base
+            return id(a) if a is not None else i
+
+        for bid in {base_id(i) for i in bad_ids}:
             owners = [int(p[3:].split(".")[0].split("[")[0]) for p, (i, _) in self.paths.items() if i == bid]
             if owners:
                 toks.add(f"obj{min(owners)}")
@@ -1747,7 +1755,8 @@ class C11(PropertyCheck):
             return None
         holder = f"obj{mvi - 1}" if mv["values"] != "reconstruction" else f"obj{ks.index('Inversion')}"
         for st_obs in obs.get("steps", []):
-            if any(t != holder for t in st_obs.get("owners", [])):
+            # (the valued mapper itself when its `values` is a view of the holder's array: two mappers)
+            if any(t not in (holder, f"obj{mvi}") for t in st_obs.get("owners", [])):
                 return None
         aa = load_autoarray()
         orig = aa.MapperValued.__dict__["values_masked"]
